@@ -6,6 +6,8 @@ fn main() {
     "o20_4_full_collection_exact" => { let r = collect_one_box(n(2) != 0, 9); r.0 && r.1 && r.2 && r.3 },
     "o20_4n_nursery_collection_exact" => { let r = collect_one_box(n(2) != 0, 0); r.0 && r.1 && r.2 && r.3 },
     "o20_4p_promoted_then_full_exact" => collect_promoted_then_full(),
+    "o09_intern_evicts_unrooted" => intern_evicts_unrooted(),
+    "o09_intern_keeps_rooted" => intern_keeps_rooted(),
     "o09_intern_twice" => intern_twice(),
     "o09_intern_across_collection" => intern_across_collection(n(2) != 0),
     "o05_4_marks_cleared" => collect_twice(0),
